@@ -129,3 +129,32 @@ def pool_events(lines):
         if e["ev"] == "dispatch":
             e["nw"] = sorted(w for w, v in nxr.items() if v)
     return out
+
+def spec_walks(n, outdir, seed=1):
+    """specification -> implementation: TLC simulates mech/MsgQueue (MC_MsgQueueWalk), the driver steps
+    every behaviour through the real server and compares the abstract state after each action"""
+    os.makedirs(outdir, exist_ok=True)
+    rc, out, wall = vlib.tlc("walkgen", "MsgQueue_walk.cfg", "MC_MsgQueueWalk.tla", os.path.join(vlib.SPECS, "mc"), workers=1, timeout=600,
+                             extra=["-simulate", "num=%d" % n, "-depth", "45", "-seed", str(seed)], java_opts="-Xmx3g -Xss64m")
+    wp = os.path.join(outdir, "walks.ndjson")
+    k = 0
+    with open(wp, "w") as f:
+        for line in out.splitlines():
+            m = re.match(r'^<<"WALK", (".*")>>\s*$', line)
+            if m:
+                f.write(json.loads(m.group(1)) + "\n")
+                k += 1
+    if k == 0:
+        raise vlib.ToolError("TLC produced no walks:\n" + out[-1500:])
+    op = os.path.join(outdir, "walks.out")
+    rc, o = vlib.sh([vlib.D1, "walk", "--walks", wp, "--out", op], timeout=900)
+    m = re.search(r"DONE walks=(\d+) conform=(\d+) steps=(\d+)", o)
+    if rc != 0 or not m:
+        raise vlib.ToolError("walk driver failed: " + o[-1500:])
+    div = []
+    for line in open(op):
+        r = json.loads(line)
+        if not r["ok"]:
+            div.append(r)
+    return {"behaviours_generated_by_tlc": k, "actions_executed_on_the_real_code": int(m.group(3)), "conform": int(m.group(2)),
+            "divergences": div[:10], "n_divergences": len(div), "tlc_wall_s": round(wall, 1)}
